@@ -75,6 +75,8 @@ def judge(chk, cases, a):
 
 
 def run(chk):
+    progs_e, le = interaction_stream(chk, suffix='var zz = )\n', name='interactions-error')
+    judge(chk, [('file', t_) for t_ in le], list(le.values()))
     rng = random.Random(chk.seed)
     chk.rule = ('rejected inputs: corpus programs damaged by 1-3 token-level mutations, token soup, UTF-8 soup, unterminated literal/comment inserted at every line of multi-line programs, multi-line tokens before the error (also with CR LF line ends and the error on the line where the token closes), nesting 62..70 deep; '
                 'entry points parse_source / expression / parse_stmt.  oracle: typed error, path, Display returns, (line, col) is a real position and the unexpected token text is there.  non-trivial: the input is rejected; distinct by text.')
